@@ -19,14 +19,16 @@ import (
 )
 
 type Net struct {
-	mu       sync.Mutex
-	nextID   int
-	servers  map[string]func(c *Conn) // addr -> accept function (runs in a new goroutine)
-	Refuse   map[string]bool          // addr -> dial refused
-	Blackhole map[string]bool         // addr -> dial hangs until the context expires
-	Conns    []*Conn
-	OnDial   func(addr string)
-	Log      func(format string, a ...interface{})
+	mu        sync.Mutex
+	nextID    int
+	servers   map[string]func(c *Conn) // addr -> accept function (runs in a new goroutine)
+	Refuse    map[string]bool          // addr -> dial refused
+	Blackhole map[string]bool          // addr -> dial hangs until the context expires
+	Conns     []*Conn
+	OnDial    func(addr string)
+	// DialFault, when set, is asked for every dial; true refuses this one dial
+	DialFault func(addr string) bool
+	Log       func(format string, a ...interface{})
 }
 
 func New() *Net {
@@ -40,21 +42,21 @@ func (a addr) String() string  { return a.s }
 
 // Conn is one end of a simulated connection.
 type Conn struct {
-	n      *Net
-	ID     int
-	Name   string
-	peer   *Conn
-	mu     *sync.Mutex // shared by both ends
-	rbuf   []byte
-	held   [][]byte // written by the peer, not yet delivered (Hold mode)
-	Hold   bool     // deliveries to this end are explicit events
-	closed bool
-	eof    bool // peer closed; EOF once rbuf and held are drained
-	reset  bool
-	wake   chan struct{}
-	rdead  time.Time
-	local  addr
-	remote addr
+	n                 *Net
+	ID                int
+	Name              string
+	peer              *Conn
+	mu                *sync.Mutex // shared by both ends
+	rbuf              []byte
+	held              [][]byte // written by the peer, not yet delivered (Hold mode)
+	Hold              bool     // deliveries to this end are explicit events
+	closed            bool
+	eof               bool // peer closed; EOF once rbuf and held are drained
+	reset             bool
+	wake              chan struct{}
+	rdead             time.Time
+	local             addr
+	remote            addr
 	BytesIn, BytesOut int
 	// ResetAfterIn > 0: the connection is reset once this end has read that many bytes more
 	ResetAfterIn int
@@ -102,6 +104,9 @@ func (n *Net) Dial(ctx context.Context, network, address string) (net.Conn, erro
 	n.mu.Unlock()
 	if n.OnDial != nil {
 		n.OnDial(address)
+	}
+	if n.DialFault != nil && accept != nil && !refuse && !hole && n.DialFault(address) {
+		refuse = true
 	}
 	if hole {
 		<-ctx.Done()
